@@ -21,6 +21,13 @@ pub fn run(id: &str, tier: &str) -> i32 {
             let d = hist_def(id).unwrap();
             let mut rep = crate::engine::Report::new(d.id, tier, d.level);
             common::run_hist(&d, tier, &mut rep);
+            if id == "C09" || id == "C10" {
+                let ld = std::sync::atomic::Ordering::Relaxed;
+                rep.cov("evaluations", serde_json::json!(fsprops::CRASH_IMAGES.load(ld)));
+                rep.cov("crash_images", serde_json::json!(fsprops::CRASH_IMAGES.load(ld)));
+                rep.cov("distinct_nontrivial", serde_json::json!(fsprops::CRASH_TRANSITIONS.load(ld)));
+                rep.cov("rule", serde_json::json!("for every transition of the history BFS (distinct by construction) that writes at least one block, one crash image per prefix of its block-write log is rebuilt and judged; evaluations = crash images, distinct_nontrivial = transitions with a non-empty write log"));
+            }
             rep.finish()
         }
         "C11" => {
